@@ -77,3 +77,92 @@ Theorem C05_late : forall L cap buf c p, bytes_ok buf -> len buf < SIZE_MAX ->
   c = ESyntax /\ exists c' p', load L cap buf = LErr c' p' p' /\ c' <> ENone /\ c' <> ENoData /\ p <= p'.
 Proof. exact PIdeal_proofs.C05_late. Qed.
 Print Assumptions C05_late.
+
+(* ------------------------------------------------------------------------------------------ *)
+(* Translator tie of cbor_load's outcome mapping (translator/effects.py renders cbor_load as three
+   plans: from its entry, one round of the decoding loop, one round of the unwinding loop;
+   gen/Gen_effects_load.v; Bridge_effects_load.v; HPlansLoad_proofs.v): which code, position and read
+   count every exit of the model's [load] / [load_loop] reports is what the plans generated from the
+   C source say — NODATA at 0 for empty input; NOTENOUGHDATA when nothing is left or the decoder
+   wants more, MALFORMATED on a decoder error, both at the old position; MEMERROR, then SYNTAXERROR,
+   at the position after the head when a callback flagged it. *)
+From Coq Require Import ZArith String.
+From CB Require Import GenLeafTypes HPlans HPlansLoad HPlans_proofs HPlansLoad_proofs Bridge_effects_load.
+From CBGen Require Import Gen_effects_load.
+Local Open Scope string_scope.
+Local Open Scope list_scope.
+Local Open Scope N_scope.
+
+Theorem C05_code_load_plans : forall code cf dr position read size st se cf' size' se' n,
+  n < 2^64 -> read < 2^64 -> dr < 2^64 -> size' < 2^64 -> size < 2^64 -> (0 <= st <= 2)%Z ->
+  Gcbor_load code cf (Z.of_N dr) (Z.of_N position) (Z.of_N read) (Z.of_N size) st se cf' (Z.of_N size') se' (Z.of_N n) =
+    load_entry_plan code cf position read size se n /\
+  Gcbor_load_loop0 code cf (Z.of_N dr) (Z.of_N position) (Z.of_N read) (Z.of_N size) st se cf' (Z.of_N size') se' (Z.of_N n) =
+    load_step_plan code cf position read size se n st dr cf' se' size' /\
+  Gcbor_load_loop1 code cf (Z.of_N dr) (Z.of_N position) (Z.of_N read) (Z.of_N size) st se cf' (Z.of_N size') se' (Z.of_N n) =
+    load_unwind_plan code cf position read size se.
+Proof.
+  intros code cf dr position read size st se cf' size' se' n Hn Hr Hd Hs' Hs Hst.
+  split; [exact (bridge_plan_load_entry code cf (Z.of_N dr) position read size st se cf' (Z.of_N size') se' n Hn)|].
+  split; [exact (bridge_plan_load_step code cf dr position read size st se cf' size' se' n Hn Hr Hd Hs' Hst)|].
+  exact (bridge_plan_load_unwind code cf (Z.of_N dr) position read size st se cf' (Z.of_N size') se' (Z.of_N n) Hs).
+Qed.
+Print Assumptions C05_code_load_plans.
+
+Theorem C05_load_entry_follows_plan : forall L cap buf code cf pos rd sz se,
+  let p := load_entry_plan code cf pos rd sz se (len buf) in
+  match p_ret p with
+  | RP PNull => load L cap buf = LErr (code_lerr (fieldZ "code" p)) (fieldN "position" p) (fieldN "read" p)
+  | RLoop 0 => p_reqs p = [] /\ fieldN "read" p = 0 /\ fieldN "size" p = 0 /\
+               fieldZ "creation_failed" p = 0%Z /\ fieldZ "syntax_error" p = 0%Z /\
+               load L cap buf = load_loop L cap (S (List.length buf)) buf 0 []
+  | _ => False
+  end.
+Proof. exact load_entry_follows_plan. Qed.
+
+Theorem C05_code_load_error_exits : forall L cap fuel buf read stk code pos r e,
+  len buf < 2 ^ 64 -> read < len buf -> len stk < 2 ^ 64 -> rd r < 2 ^ 64 ->
+  stream_decode (skipnN read buf) = SRes r e ->
+  st r <> Finished ->
+  forall cf' se' sz', sz' < 2 ^ 64 ->
+  let p := Gcbor_load_loop0 code 0 (Z.of_N (rd r)) (Z.of_N pos) (Z.of_N read) (Z.of_N (len stk)) (zstatus (st r)) 0
+             cf' (Z.of_N sz') se' (Z.of_N (len buf)) in
+  p_ret p = RLoop 1 /\
+  load_loop L cap (S fuel) buf read stk = LErr (code_lerr (fieldZ "code" p)) (fieldN "position" p) (fieldN "read" p) /\
+  code_lerr (fieldZ "code" p) = (if (zstatus (st r) =? ST_NEDATA)%Z then ENotEnough else EMalformed) /\
+  fieldN "position" p = read /\ fieldN "read" p = read.
+Proof. exact code_load_error_exits. Qed.
+Print Assumptions C05_code_load_error_exits.
+
+Theorem C05_code_load_finished_round : forall L cap fuel buf read stk code pos r tk,
+  len buf < 2 ^ 64 -> read < len buf -> len stk < 2 ^ 64 -> rd r < 2 ^ 64 ->
+  stream_decode (skipnN read buf) = SRes r (Some tk) ->
+  st r = Finished ->
+  let c := callback L cap tk stk in
+  fault c = false -> len (stack c) < 2 ^ 64 ->
+  let p := Gcbor_load_loop0 code 0 (Z.of_N (rd r)) (Z.of_N pos) (Z.of_N read) (Z.of_N (len stk)) ST_FINISHED 0
+             (b2Z (creation_failed c)) (Z.of_N (len (stack c))) (b2Z (syntax_error c)) (Z.of_N (len buf)) in
+  match p_ret p with
+  | RLoop 1 => load_loop L cap (S fuel) buf read stk =
+               LErr (code_lerr (fieldZ "code" p)) (fieldN "position" p) (fieldN "read" p)
+  | RLoop 0 => stack c <> [] /\
+               load_loop L cap (S fuel) buf read stk = load_loop L cap fuel buf (fieldN "read" p) (stack c)
+  | RP _ => stack c = [] /\
+            forall t, root c = Some t -> load_loop L cap (S fuel) buf read stk = LOk t (fieldN "read" p)
+  | _ => False
+  end.
+Proof. exact code_load_finished_round. Qed.
+Print Assumptions C05_code_load_finished_round.
+
+Theorem C05_load_outcome_codes : forall code cf pos read sz se n st dr cf' se' sz',
+  let p := load_step_plan code cf pos read sz se n st dr cf' se' sz' in
+  p_ret p = RLoop 1 ->
+  fieldN "position" p = fieldN "read" p /\
+  ((n <=? read) = true -> code_lerr (fieldZ "code" p) = ENotEnough /\ fieldN "read" p = read) /\
+  ((n <=? read) = false ->
+     (st = ST_NEDATA -> code_lerr (fieldZ "code" p) = ENotEnough /\ fieldN "read" p = read) /\
+     (st = ST_ERROR -> code_lerr (fieldZ "code" p) = EMalformed /\ fieldN "read" p = read) /\
+     (st = ST_FINISHED -> fieldN "read" p = wrap64 (read + dr) /\
+        code_lerr (fieldZ "code" p) = if negb (cf' =? 0)%Z then EMem else ESyntax)).
+Proof. exact load_outcome_codes. Qed.
+Print Assumptions C05_load_outcome_codes.
